@@ -118,6 +118,13 @@ pub struct OrderBook<const LEVELS: usize = 10> {
     /// executed (but orders can still be
     /// placed and modified)
     trading: bool,
+    /// Earliest queue time that can be assigned
+    /// to the next order placed on the book, used
+    /// to keep queue keys unique (and in arrival
+    /// order) when several orders are queued at
+    /// the same time-stamp
+    #[serde(skip_serializing)]
+    next_queue_time: Nanos,
 }
 
 /// Order rejection errors
@@ -167,7 +174,20 @@ impl<const LEVELS: usize> OrderBook<LEVELS> {
             orders: Vec::new(),
             trades: Vec::new(),
             trading,
+            next_queue_time: 0,
         }
+    }
+
+    /// Get a unique queue time for an order being placed
+    ///
+    /// This is the current time, unless an order has
+    /// already been queued at (or after) the current
+    /// time, in which case the next free time is used
+    /// so orders retain their arrival order in the queue.
+    fn queue_time(&mut self) -> Nanos {
+        let t = self.t.max(self.next_queue_time);
+        self.next_queue_time = t.saturating_add(1);
+        t
     }
 
     /// Get the order book time
@@ -497,7 +517,7 @@ impl<const LEVELS: usize> OrderBook<LEVELS> {
             self.match_bid(order_entry);
         }
         if order_entry.order.status != Status::Filled {
-            let key: OrderKey = (Side::Bid, order_entry.key.1, self.t);
+            let key: OrderKey = (Side::Bid, order_entry.key.1, self.queue_time());
             order_entry.key = key;
             self.bid_side
                 .insert_order(key, order_entry.order.order_id, order_entry.order.vol)
@@ -540,7 +560,7 @@ impl<const LEVELS: usize> OrderBook<LEVELS> {
             self.match_ask(order_entry);
         }
         if order_entry.order.status != Status::Filled {
-            let key: OrderKey = (Side::Ask, order_entry.key.1, self.t);
+            let key: OrderKey = (Side::Ask, order_entry.key.1, self.queue_time());
             order_entry.key = key;
             self.ask_side
                 .insert_order(key, order_entry.order.order_id, order_entry.order.vol)
@@ -699,7 +719,7 @@ impl<const LEVELS: usize> OrderBook<LEVELS> {
         if order_entry.order.status != Status::Filled {
             match order_entry.key.0 {
                 crate::types::Side::Bid => {
-                    let key: OrderKey = get_bid_key(self.t, new_price);
+                    let key: OrderKey = get_bid_key(self.queue_time(), new_price);
                     order_entry.key = key;
 
                     self.bid_side.insert_order(
@@ -709,7 +729,7 @@ impl<const LEVELS: usize> OrderBook<LEVELS> {
                     );
                 }
                 crate::types::Side::Ask => {
-                    let key: OrderKey = get_ask_key(self.t, new_price);
+                    let key: OrderKey = get_ask_key(self.queue_time(), new_price);
                     order_entry.key = key;
 
                     self.ask_side.insert_order(
@@ -894,9 +914,11 @@ impl<const LEVELS: usize> std::convert::TryFrom<OrderBookState<LEVELS>> for Orde
     fn try_from(state: OrderBookState<LEVELS>) -> Result<Self, Self::Error> {
         let mut bid_side = BidSide::default();
         let mut ask_side = AskSide::default();
+        let mut next_queue_time: Nanos = 0;
 
         for OrderEntry { order, key } in state.orders.iter() {
             if order.status == Status::Active {
+                next_queue_time = next_queue_time.max(key.2.saturating_add(1));
                 match order.side {
                     Side::Bid => bid_side.insert_order(*key, order.order_id, order.vol),
                     Side::Ask => ask_side.insert_order(*key, order.order_id, order.vol),
@@ -913,6 +935,7 @@ impl<const LEVELS: usize> std::convert::TryFrom<OrderBookState<LEVELS>> for Orde
             orders: state.orders,
             trades: state.trades,
             trading: state.trading,
+            next_queue_time,
         })
     }
 }
